@@ -145,6 +145,30 @@ def build_spec(spec, sp):
         build_namespace(spec, 'output', sp['outputs'])
     else:
         spec.outputs.dynamic = True
+    for path, attr, value in sp.get('adjust', ()):
+        # a spec adjusted after the declaration, through the public setters of the port (a subclass' define does this)
+        target = spec.inputs
+        for name in path:
+            target = target[name]
+        if attr == 'default':
+            target.default = copy.deepcopy(value[1])
+        elif attr == 'valid_type':
+            target.valid_type = TYPES[value]
+        elif attr == 'validator':
+            target.validator = VALIDATORS[value]
+        else:
+            raise ValueError(attr)
+
+
+def adjusted(tree, adjust):
+    """The tree that describes the spec after ``adjust`` was applied."""
+    tree = copy.deepcopy(tree)
+    for path, attr, value in adjust or ():
+        target = tree
+        for name in path:
+            target = target['ports'][name]
+        target[attr] = copy.deepcopy(value)
+    return tree
 
 
 # -- the reference model -----------------------------------------------------------------------
